@@ -8,6 +8,9 @@ BASE = ("go/types + go/ssa (x/tools v0.29.0) faithful IR; stdlib contracts as do
         "(DESIGN.md section 3); caller-supplied io.Reader/io.Writer obey their contracts")
 
 CHECKS = {
+ "C10": dict(level="other", ref="§4 C10",
+   text="WriteTo's shape is read off the SSA form by value identity: one buffer made with the dry-run size fill(nil-slice,0) of the receiver, filled once by the same function from offset 0, exactly one Write of that very buffer on every path, the writer used for nothing else, results int64(n), err of that call; Undefined returns a non-nil error and never touches the writer. A ghost counter over the emissions of every fill-family function shows each emission to be made at entry offset + widths of all earlier emissions and the return to be that sum; primitives are shown to write contiguous pieces totalling what they return (extent rule, byte-per-iteration rule for the variable-byte-integer encoder); the returned width is the same on both sides of every buffer-size guard (dry run = real run); String prints the dry-run size. That the remaining-length value equals the bytes that follow is C02's.",
+   technique="static analysis: SSA value-identity/result-flow rules, ghost-counter offset threading, linear-form equality of written extents"),
  "C09": dict(level="other", ref="§4 C09",
    text="The four rejection classes as path rules on the SSA form: (a) truncation inside a field — every field is read through the sequential reader's guarded primitive, proven to fail at end of data and never to advance beyond it, and every wire decoder is proven to return nil only when at least its minimum width is present, every other return being a non-nil error; the sticky error is what every packet decoder returns and ReadPacket turns it into (nil, err); (b) both variable-byte-integer decoders keep the size guard on every cycle and only the no-continuation-bit exit reaches success; (c) the boolean decoder succeeds only on the byte==0 / byte==1 edges; (d) in the property loop every iteration reads a value or records a non-nil error, and all accepted identifiers are among the 27 of MQTT v5.0. The mechanism is decided, not the enumeration of every cut of every frame.",
    technique="static analysis: CFG path rules (must-pass-through, dominance), linear-inequality proofs, constant extraction against a specification table"),
